@@ -327,6 +327,35 @@ func cmdCheck(args []string) int {
 			fmt.Printf("VIOLATION property=%s replay=%s%s\n", prop, rp, suffix)
 		}
 	}
+	// assumed contracts on functions of the repository itself (out of the verifier's reach) are tested against the real
+	// function on sampled inputs: a refuted assumption is a confirmed counterexample against every proof that used it
+	assumedSeen := map[*Contract]bool{}
+	var conform []interface{}
+	for _, r := range results {
+		if r.Ex == nil {
+			continue
+		}
+		var cs []*Contract
+		for c := range r.Ex.calledContracts {
+			cs = append(cs, c)
+		}
+		sort.Slice(cs, func(i, j int) bool { return cs[i].Name < cs[j].Name })
+		for _, c := range cs {
+			if !c.Trusted || c.Fn == nil || c.IfaceKey != "" || assumedSeen[c] || c.Fn.Pkg == nil || !strings.HasPrefix(c.Fn.Pkg.Pkg.Path(), w.module) {
+				continue
+			}
+			assumedSeen[c] = true
+			rep := conformAssumed(w, c)
+			conform = append(conform, rep)
+			if nf, ok := rep["failures"].(int); ok && nf > 0 {
+				viol++
+				nm := unitName(c) + "#assumed-contract"
+				rp := writeReplay(root, prop, nm, map[string]interface{}{"obligation": nm, "unit": unitName(c), "replay": rep,
+					"note": "the real function violates its ASSUMED contract on a sampled input (real run): every obligation discharged with this contract rests on a false lemma"})
+				fmt.Printf("VIOLATION property=%s replay=%s\n", prop, rp)
+			}
+		}
+	}
 	if prop == "C12" {
 		obs, errs := w.bpfObligations()
 		for _, e := range errs {
@@ -408,6 +437,7 @@ func cmdCheck(args []string) int {
 		"known_findings_matched":   matched,
 		"samples":                  samples,
 		"load_secs":                round2(loadS),
+		"assumed_contracts_sampled_against_the_real_function": conform,
 		"failing_obligations_of_other_properties_in_shared_units": otherFail,
 		"obligations_needing_the_longer_second_attempt":           slow,
 	}
